@@ -435,6 +435,8 @@ def pred_truth(e, elem, key, cmp_names, o):
             y = astx.strip_casts(x["e"])
             if y is not None and y.get("k") == "ref" and y["n"] in elem:
                 return "E"
+            if y is not None and y.get("k") == "ref" and y["n"] in key:
+                return "K"
         return None
     if k == "bin" and e["op"] in ("==", "!=", "<", ">", "<=", ">="):
         a, b = side(e["l"]), side(e["r"])
